@@ -37,9 +37,12 @@ def generate(rng, tier):
 
 
 def oracle(case, out):
+    w = case.line.split()[0]
+    for m in SUBS:
+        if w in m.WORDS:
+            return m.oracle(case, out)                 # the sub-check has its own malformed stream (bad-op expected on both sides)
     if out == 'bad-op':
         return ('harness-rejected-case', out)
-    w = case.line.split()[0]
     if w in RD.WORDS:
         return RD.oracle(case, out, ('c02',))
     for m in SUBS:
@@ -69,10 +72,18 @@ def agree(case, out, mout):
 
 
 def signature(case, out, clause):
+    w = case.line.split()[0]
+    for m in SUBS:
+        if w in m.WORDS and hasattr(m, 'signature'):
+            return m.signature(case, out, clause)
     return clause
 
 
 def nontrivial(case, out):
+    w = case.line.split()[0]
+    for m in SUBS:
+        if w in m.WORDS and hasattr(m, 'nontrivial'):
+            return m.nontrivial(case, out)
     toks = case.line.split(' ; ')[1:]
     return len({t.rstrip('!')[1:] for t in toks}) >= 2
 
